@@ -16,7 +16,7 @@ META = {
     'props': 'Props/C20.v',
     'claimed': True,
     'level_text': ('Proof about a model of the path handling of geophires_x/__main__.py, GEOPHIRESv3.main (after fix 4b78654), '
-                   'Model.__init__, GeophiresXClient and the pathlib operations they use, with the simulation an arbitrary function: 11 '
+                   'Model.__init__, GeophiresXClient and the pathlib operations they use, with the simulation an arbitrary function: 16 '
                    'axiom-free Coq theorems - for every starting directory, installation directory, input and output argument the command '
                    'line writes the report to Path(out).absolute() of the starting directory and the JSON next to it as stem.json (the '
                    'chdir into the package does not leak), relative and absolute forms name the same files, the default is HDR.out/HDR.json '
@@ -25,7 +25,11 @@ META = {
                    'exception, bare sys.exit()), and any failure gives a non-zero status and no report (command line after fix 3ff4cc0; the '
                    'pre-fix command line is kept as cli_pinned with C20_exit_pinned_refuted / C20_entry_points_agree_pinned_refuted, witness '
                    'in corpus/C20). The pre-fix JSON derivation (str.replace) is kept as json_path_pinned with '
-                   'its refutation a.out/a.out. Report CONTENT equality between entry points is tied (subprocess CLI vs client vs direct '
+                   'its refutation a.out/a.out. The direct pipeline with a relative / missing output argument is described by '
+                   'C20_direct_pipeline_paths (files relative to the package directory; tied with the chdir target substituted). HIP-RA-X '
+                   '(hip_ra_x.main, HipRaXClient): absolute paths - script and client agree (C20_hip_entry_points_agree); relative paths are '
+                   'resolved against the package directory (C20_hip_script_paths, requested-path clause REFUTED: known finding); exit status '
+                   'PARTIAL (C20_hip_exit_partial) and REFUTED when the report cannot be written (known finding). Report CONTENT equality between entry points is tied (subprocess CLI vs client vs direct '
                    'vs Monte-Carlo work_package on the same inputs), not proved.'),
     'level_note': ('Trusted: Coq kernel + vm_compute; the Python harness; pathlib/os are modelled (POSIX, no symbolic links, no drive). '
                    'The command line is run through tools/lib/cli_wrapper.py, identical to python -m geophires_x except that the log-file '
@@ -43,13 +47,13 @@ META = {
                      'hand-written model coq/Model/CliPaths.v tied to __main__.py / GEOPHIRESv3.main / GeophiresXClient by exact calls of '
                      'the current source and by observed subprocess behaviour, compared in the kernel',
                      'tools/lib/cli_wrapper.py, tools/lib/cli_stub.py (unverified Python)'],
-    'modelled': ['geophires_x/__main__.py', 'GEOPHIRESv3.main (paths, chdir)', 'Model.__init__ (output_file)',
+    'modelled': ['hip_ra_x.hip_ra_x.main (chdir, argv, swallowed exceptions)', 'HipRaXClient.get_hip_ra_result', 'geophires_x/__main__.py', 'GEOPHIRESv3.main (paths, chdir)', 'Model.__init__ (output_file)',
                  'GeophiresXClient.get_geophires_result (argv, SystemExit)', 'GeophiresXResult.json_output_file_path',
                  'pathlib.PurePosixPath parsing / str / absolute / name / stem / with_name / with_suffix', 'POSIX resolution of ..'],
     'assumptions': ['POSIX paths without symbolic links; Windows drive semantics out of scope',
                     'file creation and process exit status are observed, not modelled beyond CliPaths.v',
                     'equality of report content across entry points is sampled, not proved'],
-    'fingerprint': [('src/geophires_x/GEOPHIRESv3.py', 'main'), ('src/geophires_x_client/__init__.py', 'GeophiresXClient.get_geophires_result'),
+    'fingerprint': [('src/hip_ra_x/hip_ra_x.py', 'main'), ('src/hip_ra_x/__init__.py', 'HipRaXClient.get_hip_ra_result'), ('src/geophires_x/GEOPHIRESv3.py', 'main'), ('src/geophires_x_client/__init__.py', 'GeophiresXClient.get_geophires_result'),
                     ('src/geophires_x/Model.py', 'Model.__init__')],
 }
 
@@ -221,18 +225,19 @@ def inputs(ctx):
     return ok, list(SPECIAL.items())
 
 
-def part_cli(ctx):
+def part_cli(ctx, ex):
     rnd = ctx.rng
     ok_inputs, special = inputs(ctx)
-    direct = runner.run_many(ctx, [t for _, t in ok_inputs] + [t for _, (t, _) in special if t is not None], want_json=True, workers=8)
+    texts = [t for _, t in ok_inputs] + [t for _, (t, _) in special if t is not None]
+    direct = list(ex.map(runner._job, [(i, t, str(ctx.scratch), True) for i, t in enumerate(texts)]))   # the direct pipeline, same worker pool
     plan = []   # (input name, text, sim code, reference run, cwd_rel, out)
     for k, (name, text) in enumerate(ok_inputs):
         ref = direct[k]
         code = 0 if ref['ok'] else (2 if ref['error'] == 'SystemExit(None)' else 1)
         outs = [('d1', o) for o in OUTS['d1']] + [('d1/sub', o) for o in OUTS['d1/sub']]
         if ctx.quick:    # one full path matrix, then one shape for 6 further inputs; every input goes through client and MC below
-            outs = ([('d1', o) for o in OUTS['d1'][:9]] + [('d1/sub', o) for o in OUTS['d1/sub'][:2]]) if k == 0 else \
-                (rnd.sample(outs, 1) if k < 7 else [])
+            outs = ([('d1', o) for o in OUTS['d1'][:8]] + [('d1/sub', o) for o in OUTS['d1/sub'][:2]]) if k == 0 else \
+                (rnd.sample(outs, 1) if k < 6 else [])
         elif k >= 6:
             outs = rnd.sample(outs, 3)
         for cwd_rel, o in outs:
@@ -472,14 +477,185 @@ def part_direct_relative(ctx, ok_inputs, direct, ex):
              'observed with the chdir target substituted by a scratch directory')
 
 
+# ------------------------------------------------------------------------------------------ (f) HIP-RA-X
+HIP_BASE = {'Reservoir Temperature': 250.0, 'Rejection Temperature': 60.0, 'Reservoir Porosity': 10.0, 'Reservoir Area': 55.0,
+            'Reservoir Thickness': 0.25, 'Reservoir Life Cycle': 25}
+HIP_OUTPUTS = ['Reservoir Volume (reservoir)', 'Stored Heat (reservoir)', 'Producible Heat (reservoir)', 'Producible Electricity (reservoir)']
+
+
+def hip_inputs(ctx, n):
+    rnd, out = ctx.rng, [('HIP-RA-X_example1', ''.join(f'{k}, {v}\n' for k, v in HIP_BASE.items()))]
+    for i in range(n):
+        d = dict(HIP_BASE)
+        d.update({'Reservoir Temperature': rnd.randint(120, 350), 'Rejection Temperature': rnd.randint(25, 90),
+                  'Reservoir Porosity': rnd.randint(2, 30), 'Reservoir Area': rnd.randint(5, 200),
+                  'Reservoir Thickness': rnd.randint(1, 20) / 10})
+        out.append((f'hip{i}', ''.join(f'{k}, {v}\n' for k, v in d.items())))
+    return out
+
+
+def _hip_job(a):
+    """hip_ra_x.main() in-process with the chdir into the package directory redirected to a scratch stand-in (see _direct_job)"""
+    cwd, fake_pkg, argv_tail = a
+    import hip_ra_x.hip_ra_x as h
+    real_pkg, real_chdir = os.path.dirname(os.path.abspath(h.__file__)), os.chdir
+    os.chdir = lambda p: real_chdir(fake_pkg if os.path.abspath(p) == real_pkg else p)
+    root = Path(cwd).parent
+    before = {str(p) for p in root.rglob('*') if p.is_file()}
+    real_chdir(cwd)
+    sys.argv = [''] + list(argv_tail)
+    sys.stdout = open(os.devnull, 'w')
+    err = None
+    try:
+        h.main(enable_hip_ra_logging_config=False)
+    except BaseException as e:  # noqa
+        err = f'{type(e).__name__}: {e}'[:200]
+    finally:
+        os.chdir = real_chdir
+        real_chdir(str(root))
+    return {'error': err, 'new': sorted({str(p) for p in root.rglob('*') if p.is_file()} - before)}
+
+
+def _hip_client_job(a):
+    text, mode, outputs, scratch, src = a
+    from hip_ra import HipRaInputParameters
+    from hip_ra_x import HipRaXClient
+    os.chdir(scratch)
+    sys.stdout = open(os.devnull, 'w')
+    res = {'error': None, 'report': None}
+    try:
+        if mode == 'mc':      # the Monte-Carlo driver's embedded run: work_package -> HipRaXClient(HipRaInputParameters(Path(tmp)))
+            from geophires_monte_carlo import MC_GeoPHIRES3 as mc
+            rid = uuid.uuid4().hex[:10]
+            inp, outf = Path(scratch, f'hipmc_in_{rid}.txt'), Path(scratch, f'hipmc_out_{rid}.txt')
+            inp.write_text(text)
+            outf.write_text('')
+            ns = argparse.Namespace(Code_File=str(Path(src, 'hip_ra_x', 'hip_ra_x.py')), Input_file=str(inp), MC_OUTPUT_FILE=str(outf))
+            mc.work_package([[], outputs, ns, str(outf), str(scratch), sys.executable])
+            res['row'] = outf.read_text()
+            return res
+        if mode == 'file':
+            f = Path(scratch, f'hip_in_{uuid.uuid4().hex[:10]}.txt')
+            f.write_text(text)
+            gp = HipRaInputParameters(f)
+        else:
+            gp = HipRaInputParameters(dict(l.split(', ', 1) for l in text.splitlines()))
+        r = HipRaXClient().get_hip_ra_result(gp)
+        res['report'] = Path(r.output_file_path).read_text(encoding='UTF-8')
+    except BaseException as e:  # noqa
+        res['error'] = f'{type(e).__name__}: {e}'[:200]
+    return res
+
+
+def hip_process(ctx, idx, text, inp_rel, out):
+    """one real  python -m hip_ra_x.hip_ra_x  process; the OUTPUT argument is always absolute (a relative one would be written
+    into the repository), the INPUT argument may be relative to the starting directory"""
+    root = Path(ctx.scratch, f'hipcli_{idx}')
+    (root / 'w').mkdir(parents=True)
+    if text is not None:
+        (root / 'w' / 'in.txt').write_text(text)
+    out_abs = str(root / 'w' / out)
+    before = {str(p) for p in root.rglob('*') if p.is_file()}
+    env = {k: v for k, v in os.environ.items() if not k.startswith('GEOPHIRES_X_VERIF')}
+    env['PYTHONPATH'] = str(fw.SRC)
+    inp_arg = 'in.txt' if inp_rel else str(root / 'w' / 'in.txt')
+    p = subprocess.run([fw.PY, '-B', str(Path(fw.VERIF, 'tools', 'lib', 'cli_wrapper.py')), '--module=hip_ra_x.hip_ra_x', inp_arg, out_abs],
+                       cwd=root / 'w', env=env, capture_output=True, text=True, timeout=600)
+    new = sorted({str(q) for q in root.rglob('*') if q.is_file()} - before)
+    return {'cwd': str(root / 'w'), 'argv': [inp_arg, out_abs], 'exit': p.returncode, 'new': new, 'stderr': p.stderr[-300:],
+            'report': Path(out_abs).read_text(encoding='UTF-8') if Path(out_abs).is_file() else None,
+            'dir_ok': os.path.isdir(os.path.dirname(out_abs))}
+
+
+def part_hip(ctx, ex):
+    inputs_ = hip_inputs(ctx, ctx.n(5, 40))
+    name0, text0 = inputs_[0]
+    hpkg = str(fw.SRC / 'hip_ra_x')
+    # (f1) path handling, package directory substituted: (where the input file is put, argv tail, valid?)
+    shapes = [('cwd', ['ABS:w/in.txt', 'ABS:w/abs.out'], True), ('cwd', ['in.txt', 'ABS:w/x.out'], True), ('pkg', ['in.txt', 'rel.out'], True),
+              ('cwd', ['ABS:w/in.txt'], True), ('cwd', ['ABS:w/in.txt', 'ABS:w/nodir/x.out'], True), ('cwd', ['ABS:w/in.txt', 'sub/../r.out'], True),
+              ('none', ['ABS:w/in.txt', 'ABS:w/m.out'], True), ('cwd', ['ABS:w/in.txt', 'ABS:w/bad.out'], False), ('both', ['./in.txt', './sub/r2.out'], True)]
+    jobs, meta = [], []
+    for i, (where, tail, valid) in enumerate(shapes):
+        root = Path(ctx.scratch, f'hip_{i}')
+        for d in ('w', 'pkg/sub'):
+            (root / d).mkdir(parents=True)
+        text = text0 if valid else text0.replace('250.0', 'abc')
+        placed = [root / d / 'in.txt' for d in (('w',) if where == 'cwd' else ('pkg',) if where == 'pkg' else ('w', 'pkg') if where == 'both' else ())]
+        for f in placed:
+            f.write_text(text)
+        argv = [str(root / t[4:]) if t.startswith('ABS:') else t for t in tail]
+        jobs.append((str(root / 'w'), str(root / 'pkg'), argv))
+        meta.append((str(root / 'pkg'), argv, [str(f) for f in placed] if valid else [], where, tail))
+    res = list(ex.map(_hip_job, jobs))
+    terms = []
+    for (fpkg, argv, ok_in, where, tail), r in zip(meta, res):
+        target = os.path.normpath(os.path.join(fpkg, argv[1] if len(argv) > 1 else 'HIP.out'))
+        dir_ok = os.path.isdir(os.path.dirname(target))
+        terms.append(f'hip_check {qconv.coq_bytes(fpkg)} {slist([""] + argv)} {slist(ok_in)} {qconv.blit(dir_ok)} {qconv.blit(r["error"] is not None)} {slist(r["new"])}')
+        ctx.count('hip-main-paths', evaluations=1, nontrivial_keys=[(where, tuple(tail))])
+    failing = fw.kernel_bools(ctx, 'hip', ['Model.CliPaths'], terms, open_scope='string_scope')
+    for i in failing:
+        ctx.violate('corr', 'hip-ra-x:model-disagrees', 'Coq model hip_main and hip_ra_x.main() (package directory substituted) disagree on '
+                    'exception / created files', inp={'part': 'hip-main', 'where': meta[i][3], 'tail': meta[i][4]}, observed=res[i])
+    # (f2) real processes
+    plan = [('ok', text0, False, 'abs.out', 0), ('relative-input', text0, True, 'rel_in.out', 0), ('missing-output-directory', text0, False, 'nodir/x.out', 0),
+            ('missing-input-file', None, False, 'm.out', 1), ('bad-value', text0.replace('250.0', 'abc'), False, 'bad.out', 1)]
+    plan += [(f'ok:{n}', t, False, 'abs.out', 0) for n, t in inputs_[1:ctx.n(2, 12)]]
+    with ThreadPoolExecutor(max_workers=16) as tp:
+        obs = list(tp.map(lambda a: hip_process(ctx, a[0], a[1][1], a[1][2], a[1][3]), enumerate(plan)))
+    terms = []
+    for (kind, text, inp_rel, out, code), ob in zip(plan, obs):
+        ok_in = [] if (code or inp_rel) else [str(Path(ob['cwd'], 'in.txt'))]     # a relative input is looked for in the real package directory
+        terms.append(f'hip_check {qconv.coq_bytes(hpkg)} {slist([""] + ob["argv"])} {slist(ok_in)} {qconv.blit(ob["dir_ok"])} {qconv.blit(ob["exit"] != 0)} {slist(ob["new"])}')
+        rec = {'part': 'hip-cli', 'kind': kind, 'text': text, 'inp_rel': inp_rel, 'out': out, 'sim_code': code}
+        ctx.count('hip-cli-process', evaluations=1, nontrivial_keys=[kind], kinds={kind.split(':')[0]: 1})
+        if code == 0 and ob['dir_ok']:
+            if ob['exit'] != 0 or ob['new'] != [ob['argv'][1]]:
+                key = 'hip-ra-x-cli:relative-path-resolved-against-package-dir' if inp_rel else 'hip-ra-x-cli:report-not-at-requested-path'
+                ctx.violate('property', key, 'python -m hip_ra_x.hip_ra_x: a valid input given '
+                            + ('RELATIVE to the starting directory is looked for in the package directory' if inp_rel else 'with absolute paths')
+                            + ' - no report at the requested path / non-zero exit status', inp=rec,
+                            expected={'exit': 0, 'files': [ob['argv'][1]]}, observed={'exit': ob['exit'], 'files': ob['new'], 'stderr': ob['stderr']})
+        elif ob['exit'] == 0 or ob['new']:
+            ctx.violate('property', 'hip-ra-x-cli:exit-0-report-not-written' if code == 0 else 'hip-ra-x-cli:exit-status:exception',
+                        'python -m hip_ra_x.hip_ra_x: the run failed (report not written) but the exit status is 0', inp=rec,
+                        expected='non-zero exit status, no report', observed={'exit': ob['exit'], 'files': ob['new']})
+    failing = fw.kernel_bools(ctx, 'hipcli', ['Model.CliPaths'], terms, open_scope='string_scope')
+    for i in failing:
+        ctx.violate('corr', 'hip-ra-x-cli:model-disagrees', 'Coq model hip_script and the observed python -m hip_ra_x.hip_ra_x process disagree',
+                    inp={'part': 'hip-cli', 'kind': plan[i][0], 'text': plan[i][1], 'inp_rel': plan[i][2], 'out': plan[i][3], 'sim_code': plan[i][4]},
+                    observed={k: obs[i][k] for k in ('exit', 'new')})
+    # (f3) report content: script vs client (from file / from dict) vs the Monte-Carlo driver's embedded run
+    ref = {plan[i][0].replace('ok:', ''): obs[i]['report'] for i in range(len(plan)) if plan[i][0].startswith('ok')}
+    ref[name0] = ref.pop('ok')
+    cj = [(t, m, HIP_OUTPUTS, str(ctx.scratch), str(fw.SRC)) for n, t in inputs_ if n in ref for m in ('file', 'dict', 'mc')]
+    cm = [(n, m) for n, t in inputs_ if n in ref for m in ('file', 'dict', 'mc')]
+    for (n, m), job, r in zip(cm, cj, ex.map(_hip_client_job, cj)):
+        ctx.count('hip-content', evaluations=1, nontrivial_keys=[(n, m)], modes={m: 1})
+        want = ref[n]
+        if want is None:
+            continue
+        if m == 'mc':
+            lines = want.splitlines(keepends=True)
+            good = r.get('row') == ', '.join(str(mc_value(lines, o)) for o in HIP_OUTPUTS) + ', ()\n'
+        else:
+            good = r['report'] == want
+        if not good:
+            ctx.violate('property', f'hip-ra-x:content-differs:{m}', 'HIP-RA-X: the client / Monte-Carlo embedded run reports something else than '
+                        'python -m hip_ra_x.hip_ra_x for the same input', inp={'part': 'hip-content', 'input': n, 'text': job[0], 'mode': m},
+                        observed=r.get('row') or r.get('error') or 'report differs')
+
+
 def correspondence(ctx, proofs_ok=True):
     logging.disable(logging.CRITICAL)
     part_argv(ctx, ctx.n(400, 6000))
     part_json(ctx, ctx.n(400, 6000))
-    ok_inputs, direct = part_cli(ctx)
     with ProcessPoolExecutor(max_workers=8, initializer=runner._init_worker, initargs=(str(ctx.scratch),)) as ex:   # one pool: importing the simulator is the dominant cost
+        ok_inputs, direct = part_cli(ctx, ex)
         part_client(ctx, ok_inputs, direct, ex)
         part_direct_relative(ctx, ok_inputs, direct, ex)
+        part_hip(ctx, ex)
 
 
 def replay(ctx, data):
@@ -541,6 +717,21 @@ def replay(ctx, data):
         print('files created:', r['new'], 'error:', r['error'], '| Coq model main_files agrees:', not f)
         reps = list(r['reports'].values())
         bad = bool(r['error']) or len(reps) != 1 or masked(reps[0]) != masked(ref['report']) or bool(f)
+    elif part == 'hip-cli':
+        ob = hip_process(ctx, 0, inp['text'], inp['inp_rel'], inp['out'])
+        print({k: ob[k] for k in ('cwd', 'argv', 'exit', 'new', 'dir_ok')})
+        if inp['sim_code'] == 0 and ob['dir_ok']:
+            print('expected: exit 0 and the report at', ob['argv'][1])
+            bad = ob['exit'] != 0 or ob['new'] != [ob['argv'][1]]
+        else:
+            print('expected: non-zero exit status and no report')
+            bad = ob['exit'] == 0 or bool(ob['new'])
+    elif part in ('hip-main', 'hip-content'):
+        with ProcessPoolExecutor(max_workers=4, initializer=runner._init_worker, initargs=(str(ctx.scratch),)) as ex:
+            part_hip(ctx, ex)
+        bad = any(v.kind != 'property' or not v.key.startswith('hip-ra-x-cli:') for v in ctx.violations[before:])
+        print('HIP-RA-X part re-run:', [v.key for v in ctx.violations[before:]])
+        before = len(ctx.violations)
     elif part == 'mc':
         ref = runner.run_many(ctx, [inp['text']])[0]
         with ProcessPoolExecutor(max_workers=1, initializer=runner._init_worker, initargs=(str(ctx.scratch),)) as ex:
